@@ -6,8 +6,10 @@ import (
 	"os"
 	"os/exec"
 	"path/filepath"
+	"runtime"
 	"strings"
 	"sync"
+	"sync/atomic"
 	"syscall"
 	"testing"
 	"time"
@@ -312,6 +314,48 @@ func TestC20MapperChild(t *testing.T) {
 
 func mapperConcBody(c mapperConcCase) *fail {
 	switch c.Via {
+	case "barrier":
+		// every fresh source path is looked up by all goroutines at the same
+		// moment (spin barrier per path): the window between "not found" and
+		// "inserted" is hit thousands of times
+		g := &qids.PathGenerator{}
+		m := qids.NewMapper(g)
+		G, N := c.Goroutines, c.Paths
+		results := make([][]uint64, G)
+		var arrived int64
+		var wg sync.WaitGroup
+		for gi := 0; gi < G; gi++ {
+			results[gi] = make([]uint64, N)
+			wg.Add(1)
+			go func(gi int) {
+				defer wg.Done()
+				for p := 0; p < N; p++ {
+					atomic.AddInt64(&arrived, 1)
+					for spins := 0; atomic.LoadInt64(&arrived) < int64((p+1)*G); spins++ {
+						// spin briefly, then yield so that a loaded machine still makes progress
+						if spins > 100 {
+							runtime.Gosched()
+						}
+					}
+					results[gi][p] = m.QIDFor(p9.QID{Path: uint64(p) + 5000}).Path
+				}
+			}(gi)
+		}
+		wg.Wait()
+		owner := map[uint64]int{}
+		for p := 0; p < N; p++ {
+			final := m.QIDFor(p9.QID{Path: uint64(p) + 5000}).Path
+			for gi := 0; gi < G; gi++ {
+				if results[gi][p] != final {
+					return failf("mapper-concurrent-unstable", "source path %d: goroutine %d was given path %#x by a first lookup racing %d others, later lookups return %#x", p+5000, gi, results[gi][p], G-1, final)
+				}
+			}
+			if o, ok := owner[final]; ok {
+				return failf("mapper-concurrent-collision", "source paths %d and %d share mapped path %#x", o+5000, p+5000, final)
+			}
+			owner[final] = p
+		}
+		return nil
 	case "direct":
 		g := &qids.PathGenerator{}
 		m := qids.NewMapper(g)
@@ -679,11 +723,14 @@ func TestC20(t *testing.T) {
 
 	// (4) mapper, concurrent, in child processes
 	nConc := env.PerShard(env.Pick(12, 120))
-	vias := []string{"direct", "composefs", "staticfs"}
+	vias := []string{"direct", "composefs", "staticfs", "barrier"}
 	for i := 0; i < nConc; i++ {
 		c := mapperConcCase{Seed: env.Mix(fmt.Sprintf("conc%d", i)), Goroutines: 4 + int(env.Mix(fmt.Sprintf("g%d", i))%13),
-			Paths: 16 + int(env.Mix(fmt.Sprintf("p%d", i))%200), Rounds: 3, Via: vias[(i+env.Shard)%3]}
-		if c.Via != "direct" {
+			Paths: 16 + int(env.Mix(fmt.Sprintf("p%d", i))%200), Rounds: 3, Via: vias[(i+env.Shard)%4]}
+		if c.Via == "barrier" {
+			c.Goroutines = 4 + c.Goroutines%5
+			c.Paths = env.Pick(6000, 60000)
+		} else if c.Via != "direct" {
 			c.Paths = 8 + c.Paths%40
 			c.Goroutines = 2 + c.Goroutines%7
 		}
